@@ -66,7 +66,11 @@ RowOK(S, D, i) == \A k \in 1..Len(Stages) : i \notin Fail(Stages[k], S, D, DOMAI
 
 (* head / tail selection, each selected row once; deviation PolarsSubsampleDedupByValue: the polars   *)
 (* back end concatenates head and tail and calls unique(), which removes rows that are EQUAL BY VALUE *)
-Selected(n, h, t) == (IF h >= 0 THEN 1..(IF h < n THEN h ELSE n) ELSE {}) \cup (IF t >= 0 THEN {i \in 1..n : i > n - t} ELSE {})
+(* h = SampleAll stands for validate(sample=n) on a frame of n rows (no head): a random sample of ALL rows, whatever  *)
+(* the seed - the one sample whose content the specification can state                                              *)
+SampleAll == -2
+Selected(n, h, t) == (IF h = SampleAll THEN 1..n ELSE IF h >= 0 THEN 1..(IF h < n THEN h ELSE n) ELSE {})
+                     \cup (IF t >= 0 THEN {i \in 1..n : i > n - t} ELSE {})
 DedupByValue(D, rows) == {i \in rows : ~\E j \in rows : j < i /\ D.a[j] = D.a[i] /\ D.b[j] = D.b[i]}
 
 ---------------------------------------------------------------------------
@@ -88,10 +92,13 @@ Init ==
   /\ \E n \in 1..(IF mode = "drop" THEN MaxRows ELSE MaxRowsSub) : /\ D \in [a : [1..n -> ValsA], b : [1..n -> ValsB]]
                            /\ AtMostOneNull(D.a)          \* null-null duplicates: Series slice + DuplicateNullsNotReported
                            /\ ix \in IxKinds(backend, n)
-                           /\ IF mode = "subsample"
-                              THEN /\ h \in -1..n /\ t \in -1..n /\ ~(h = -1 /\ t = -1)
-                                   /\ rows = Selected(n, h, t)
-                              ELSE h = -1 /\ t = -1 /\ rows = 1..n
+                           (* which of two rows with one label survives the shipped de-duplication of a random sample depends  *)
+                           (* on the seed: the as-shipped prediction is stated for head / tail selections only                 *)
+                           /\ (IF mode = "subsample"
+                               THEN /\ h \in SampleAll..n /\ t \in -1..n /\ ~(h = -1 /\ t = -1) /\ (h = SampleAll => t \in {-1, 1})
+                                    /\ rows = Selected(n, h, t)
+                               ELSE h = -1 /\ t = -1 /\ rows = 1..n)
+                           /\ (h = SampleAll => ix \notin {"dup", "multidup"})
   /\ dev = {} /\ bad = {} /\ k = 1 /\ out = [kind |-> "none"]
 
 (* one core check / check per step: collect the failing rows it reports *)
@@ -139,6 +146,9 @@ ShippedDropLeaks == backend = "pandas" /\ mode = "drop" /\ ix = "multits" /\ bad
 Emit == Done =>
   PrintT(ToJson([kind |-> "rows", backend |-> backend, mode |-> mode, schema |-> S, a |-> D.a, b |-> D.b,
                  head |-> h, tail |-> t, ix |-> ix, expect |-> out,
+                 (* the documented channel for an argument that is not a dataframe at all: TypeError, or pandera's own   *)
+                 (* BackendNotFoundError ("no validation back end for this type")                                       *)
+                 nonframe |-> {"TypeError", "BackendNotFoundError"},
                  asis |-> IF mode = "subsample" THEN ShippedVerdict ELSE IF ShippedDropLeaks THEN "Leak:NameError" ELSE out.kind,
                  asis_kept |-> IF mode = "drop" THEN ShippedKept ELSE <<>>,
                  devs |-> (IF mode = "subsample" /\ ShippedVerdict # out.kind
